@@ -130,6 +130,22 @@ def runtime(tape, cfg, max_steps=400000, max_time=600.0, opcode_p=0.0, opcode_fu
     threadsim.install(sim)
     fatal.install()
     cap.install()
+    # AgentsMgt writes events.yaml / evtdist_N.yaml with open(): keep them in memory
+    import pydcop.infrastructure.orchestrator as _orchestrator
+    sim.files = {}
+
+    class _MemFile(io.StringIO):
+        def __init__(f, name, mode):
+            super().__init__(sim.files.get(name, "") if "a" in mode else "")
+            f.seek(0, 2)
+            f._name = name
+
+        def close(f):
+            sim.files[f._name] = f.getvalue()
+            super().close()
+    if "open" not in _orchestrator.__dict__:
+        _orchestrator.open = lambda name, mode="r", **kw: _MemFile(name, mode)
+        sim._patched_open = True
     sim.fatal = fatal
     sim.capture = cap
     try:
@@ -139,6 +155,8 @@ def runtime(tape, cfg, max_steps=400000, max_time=600.0, opcode_p=0.0, opcode_fu
         try:
             sim.leaked = sim.finish()
         finally:
+            if getattr(sim, "_patched_open", False) and "open" in _orchestrator.__dict__:
+                del _orchestrator.open
             cap.uninstall()
             fatal.uninstall()
             threadsim.uninstall()
